@@ -192,6 +192,33 @@ Theorem C19_bound_style_irrelevant :
     run_c19 (m :: f :: (k + 100 * s) :: rest) = run_c19 (m :: f :: k :: rest).
 Proof. exact bound_style_irrelevant. Qed.
 
+(* ---- tuple field types: the library's `unsafe impl<T1..Tn> Align1 for (T1, .., Tn) where T1: Align1, .., Tn: Align1`
+   (star_frame/src/align1.rs 40-66) certifies a tuple iff EVERY element is certified; then the certification of the
+   tuple is true whenever its elements' certifications are - the hypothesis of C19_align1_sound on a tuple-typed field
+   is discharged from the same hypothesis on the elements ---- *)
+Theorem C19_tuple_align1_sound :
+  forall es : list fld,
+    (forall e, In e es -> f_a1 e = true -> f_align e = 1) ->
+    f_a1 (tuple_fld es) = true ->
+    f_align (tuple_fld es) = 1 /\ f_size (tuple_fld es) = fsum es.
+Proof. exact tuple_a1_sound. Qed.
+
+(* ... which an impl that leaves the first element unbounded does not guarantee: (u64, u8) *)
+Theorem C19_tuple_align1_first_unbounded_refuted :
+  exists es : list fld,
+    (forall e, In e es -> f_a1 e = true -> f_align e = 1)
+    /\ f_a1 (tuple_fld_first_unbounded es) = true
+    /\ f_align (tuple_fld_first_unbounded es) = 8
+    /\ f_a1 (tuple_fld es) = false.
+Proof. exact tuple_a1_first_unbounded_refuted. Qed.
+
+(* every field the correspondence's decoder produces (a menu type, the parameter T instantiated with a menu type, or
+   the tuples (T, u8) / (u8, T)) is certified Align1 by the model only when its alignment is 1 *)
+Theorem C19_field_menu_align1_sound :
+  forall (g c : Z) (f : fld),
+    field_of (menu g) c = Some f -> f_a1 f = true -> f_align f = 1.
+Proof. exact field_of_a1_sound. Qed.
+
 (* ---- non-vacuity: the theorems' hypotheses are met by real declarations, and the models compute ---- *)
 Definition ex_bool : fld := mk 1 1 true true true true false VBool.
 Definition ex_tri : fld := mk 1 1 true true true true false VLe2.
@@ -249,4 +276,19 @@ Example C19_nonvacuous_bound_style :
   run_c19 [0; 0; 213; 0; 1; 2; 0; 99; 0] = [0] /\ run_c19 [0; 0; 13; 0; 1; 2; 0; 99; 0] = [0]
   /\ run_c19 [0; 0; 201; 0; 1; 2; 0; 99; 0] = [1; 1; 2; 2; 0] /\ run_c19 [0; 0; 101; 0; 1; 2; 0; 99; 0] = [1; 1; 2; 2; 0]
   /\ run_c19 [0; 0; 200; 0; 1; 1; 0; 0] = [-1] /\ run_c19 [0; 0; 301; 0; 1; 2; 0; 99; 0] = [-1].
+Proof. vm_compute. repeat split; reflexivity. Qed.
+
+(* tuple field types through the runner: #[derive(Align1)] #[repr(C)] struct D<T> { f0: (T, u8), f1: bool } is rejected
+   with T = u64 and with T = u16, certified (3 bytes, alignment 1) with T = u8; (u8, T) likewise; struct { f0: (u64, u8) }
+   and struct { f0: (u16,) } are rejected, struct { f0: (u8, bool, u8) } is certified, and under repr(C, packed) the
+   16-byte (u64, u8) is accepted unconditionally; #[zero_copy] struct { f0: (u8, u8) } is rejected (no CheckedBitPattern) *)
+Example C19_nonvacuous_tuple :
+  run_c19 [0; 0; 13; 1; 1; 0; 1; 2; 97; 1; 0] = [0] /\ run_c19 [0; 0; 11; 1; 1; 0; 1; 2; 97; 1; 0] = [0]
+  /\ run_c19 [0; 0; 1; 1; 1; 0; 1; 2; 97; 1; 0] = [1; 1; 3; 3; 0]
+  /\ run_c19 [0; 0; 13; 1; 1; 0; 1; 2; 98; 1; 0] = [0] /\ run_c19 [0; 0; 1; 1; 1; 0; 1; 2; 98; 1; 0] = [1; 1; 3; 3; 0]
+  /\ run_c19 [0; 0; 0; 0; 1; 1; 36; 0] = [0] /\ run_c19 [0; 0; 0; 0; 1; 1; 33; 0] = [0]
+  /\ run_c19 [0; 0; 0; 0; 1; 1; 38; 0] = [1; 1; 3; 3; 0]
+  /\ run_c19 [0; 0; 0; 2; 1; 0; 4; 0; 1; 1; 36; 0] = [1; 1; 16; 16; 0]
+  /\ run_c19 [1; 0; 0; 0; 1; 1; 18; 0] = [0]
+  /\ run_c19 [0; 0; 98; 0; 1; 1; 99; 0] = [-1] /\ run_c19 [0; 0; 0; 0; 1; 1; 97; 0] = [-1].
 Proof. vm_compute. repeat split; reflexivity. Qed.
